@@ -356,11 +356,16 @@ print("HELPER " + json.dumps(out))
 
 
 # ------------------------------------------------------------------------------------------------ process helpers
+DATA_FOLDER = None   # per-run snapshot of spsdk/data (other checks may edit /repo's data files while this one runs)
+
+
 def child_env(folder, site=None, extra=None):
     env = {k: v for k, v in os.environ.items() if not k.startswith("SPSDK_CACHE") and not k.startswith("C18_")}
     env["PYTHONPATH"] = (f"{site}:" if site else "") + REPO
     env["SPSDK_CACHE_FOLDER"] = str(folder)
     env["PYTHONDONTWRITEBYTECODE"] = "1"
+    if DATA_FOLDER:
+        env["SPSDK_DATA_FOLDER"] = DATA_FOLDER
     if extra:
         env.update(extra)
     return env
@@ -382,7 +387,7 @@ def parse_answers(out: str):
     return None
 
 
-def run_start(folder, queries, disabled=False, cli=False, timeout=120):
+def run_start(folder, queries, disabled=False, cli=False, timeout=300):
     """one real fresh interpreter; -> dict(rc, answers | stdout, err)"""
     env = child_env(folder, extra={"SPSDK_CACHE_DISABLED": "1"} if disabled else None)
     cmd = [PY, *CLI] if cli else [PY, "-c", CHILD, *queries]
@@ -418,7 +423,7 @@ class Sched:
     releases ONE enabled action at a time whenever all live children are waiting (so the schedule is a deterministic function
     of `choose`); free mode: only the start barrier."""
 
-    def __init__(self, work: Path, cache: Path, site: Path, queries, choose, crash_plan=None, free=False, timeout=90):
+    def __init__(self, work: Path, cache: Path, site: Path, queries, choose, crash_plan=None, free=False, timeout=240):
         self.work, self.cache, self.site, self.queries, self.choose = work, cache, site, queries, choose
         self.crash_plan = dict(crash_plan or {})   # pid -> ((file, act, occurrence), "kill" | "partial n")
         self.free, self.timeout = free, timeout
@@ -654,6 +659,11 @@ def prepare(ck, work: Path) -> Ctx:
     (c.site / "sitecustomize.py").write_text(TRACER)
     c.golden = work / "golden"
     c.golden.mkdir()
+    # the fingerprints depend on (mtime,size) of the data files: work on a private snapshot so that the assumption
+    # "data files do not change while the processes run" holds even when somebody edits /repo concurrently
+    global DATA_FOLDER
+    DATA_FOLDER = str(work / "data")
+    shutil.copytree(Path(REPO) / "spsdk" / "data", DATA_FOLDER)
     import itertools
     c.counter = itertools.count(1)
     # expected answers: cache disabled (its own folder: a disabled start wipes the cache folder)
@@ -793,8 +803,16 @@ def run(ck):
 
 
 def _run(ck, work, only=None):
+    phases = ck.extra.setdefault("phase_s", {})
+    t_last = [time.time()]
+
+    def mark(name):
+        phases[name] = round(time.time() - t_last[0], 1)
+        t_last[0] = time.time()
+
     ck.lean_obligations(generated=["CacheGuards"])
     drv = ck.driver()
+    mark("lean")
     rng = ck.rng
     ck.assume("pickle: a dumped cache object loads back; the empty file and every strict prefix of a dump raise a class of `measuredPrefixExcs` "
               "(re-measured on the two real cache files each run: quick tier sampled prefixes incl. all frame boundaries, thorough tier every prefix of the config cache and a dense sample of the quick cache)",
@@ -805,6 +823,7 @@ def _run(ck, work, only=None):
               "`defaults` of the config cache and the device/quick-info data are covered by the oracle streams only; the model has abstract entries",
               "bit rot (a damaged file that still unpickles to a right-typed object with the current fingerprint) is not a crash state and not covered")
     c = prepare(ck, work)
+    mark("prepare")
     par = ck.budget(12, 14)
     measured = lean_measured()
     ostream = (only or {}).get("stream")
@@ -875,6 +894,7 @@ def _run(ck, work, only=None):
     def cls_of_prefix(k, n):
         return classes[k].get(n) or ("EOFError" if n in c.info[k]["frames"] else "UnpicklingError")
 
+    mark("prefix_classes")
     # ---------------------------------------------------------------- model exploration (all interleavings, small N) + guided replay
     helper(work, work / "hc", {"cmd": "variants", "golden": str(c.golden), "out": str(work / "variants")})
     se = ck.stream("model_exploration", "exhaustive search of ALL interleavings (with kills) of the model instantiated with the generated guards, 1-3 processes, "
@@ -898,6 +918,7 @@ def _run(ck, work, only=None):
                 se.compare((kind, f0, qs), "safe", a, "model exploration did not finish")
         se.exhaustive = True
 
+    mark("exploration")
     # ---------------------------------------------------------------- real starts on crash states
     sc = ck.stream("crash_starts", "a REAL fresh interpreter (query script; for a subset also `python -m spsdk.apps.nxpimage --help`) started on a cache folder in "
                    "which one cache file is a byte-length prefix (empty file, frame boundaries, each observed exception class, random lengths, complete-1) of the "
@@ -907,7 +928,7 @@ def _run(ck, work, only=None):
         ln, fr = c.info[k]["len"], c.info[k]["frames"]
         must = [0, 1, 2, 3, ln - 1] + [x for b in fr for x in (b - 1, b, b + 1) if 0 < x < ln]
         must += [n for (kk, n) in observed.values() if kk == k and n < ln]
-        extra = [rng.randrange(1, ln) for _ in range(ck.budget(20, 900))]
+        extra = [rng.randrange(1, ln) for _ in range(ck.budget(14, 900))]
         seen = set()
         for n in must + extra:
             if n not in seen and 0 <= n < ln:
@@ -927,10 +948,14 @@ def _run(ck, work, only=None):
         r = run_start(folder, ALL_QUERIES, cli=cli)
         return case, folder, r
 
-    results = []
-    with concurrent.futures.ThreadPoolExecutor(par) as ex:
-        results = list(ex.map(do_crash_start, cases))
-    insp = after_states(c, [f for _, f, _ in results])
+    results, insp = [], {}
+    for lo in range(0, len(cases), 200):     # in chunks: bounded disk use
+        with concurrent.futures.ThreadPoolExecutor(par) as ex:
+            chunk = list(ex.map(do_crash_start, cases[lo:lo + 200]))
+        insp.update(after_states(c, [f for _, f, _ in chunk]))
+        for _, folder, _ in chunk:
+            shutil.rmtree(folder, ignore_errors=True)
+        results += chunk
     for (k, n, cli), folder, r in results:
         inp = {"file": k, "prefix_length": n, "of": c.info[k]["len"], "pickle_raises": cls_of_prefix(k, n), "entry": "nxpimage --help" if cli else "query script"}
         sc.note(inp, cls=f"{k}:{cls_of_prefix(k, n)}:{'cli' if cli else 'py'}")
@@ -942,6 +967,7 @@ def _run(ck, work, only=None):
             sc.expect(all(state_ok(st.get(x, "?")) for x in ("q", "d")), inp, "after the start the damaged cache is neither replaced by a valid one nor absent", st)
         shutil.rmtree(folder, ignore_errors=True)
 
+    mark("crash_starts")
     # ---------------------------------------------------------------- stale / wrong type / other garbage
     ss = ck.stream("stale_starts", "a REAL fresh interpreter on a valid pickle that must not be trusted: wrong fingerprint with poisoned content (quick and config cache), "
                    "a cached file that vanished, wrong type, other class, object without the expected attributes, text / zeros / header-only garbage; "
@@ -971,6 +997,7 @@ def _run(ck, work, only=None):
             ss.expect(all(state_ok(st.get(x, "?")) for x in ("q", "d")), inp, "after the start the unusable cache is neither replaced by a valid one nor absent", st)
         shutil.rmtree(folder, ignore_errors=True)
 
+    mark("stale_starts")
     # ---------------------------------------------------------------- concurrent starts, free running behind a barrier
     sf = ck.stream("concurrent_starts", "N in {2,4,8(,16)} REAL processes released by a barrier on one cache folder (cold / both files empty / both cut mid-frame / "
                    "cut at a frame boundary / stale), free running; every process must exit 0 with the answers of the cache-disabled run; afterwards caches absent or valid; "
@@ -1024,6 +1051,7 @@ def _run(ck, work, only=None):
         shutil.rmtree(folder, ignore_errors=True)
         shutil.rmtree(w, ignore_errors=True)
 
+    mark("concurrent")
     # ---------------------------------------------------------------- controlled schedules: real trace vs model, crashes injected
     sm = ck.stream("schedules", "2-4 REAL processes under the controlled scheduler (every cache action gated; random interleaving; in half of the runs one or two "
                    "processes are SIGKILLed at a random action, inside pickle.dump after 0 / half / all bytes) on every class of initial state; the observed schedule is "
@@ -1041,7 +1069,7 @@ def _run(ck, work, only=None):
         return st
 
     mcases = []
-    nsch = ck.budget(24, 240)
+    nsch = ck.budget(18, 240)
     for i in range(nsch):
         r = random.Random(f"{ck.seed}/sched/{i}")
         n = r.choice([2, 2, 3, 3, 4])
@@ -1100,6 +1128,10 @@ def _run(ck, work, only=None):
         if drv is not None and not s.problem:
             mq, eq = replay_in_model(drv, "quick", model_state(c, "q", qs_, cls_of_prefix), [[0] for _ in queries], s.trace, s.procs, "q")
             stream.compare({**inp, "cache": "quick"}, "ok", mq, "observed schedule of the real processes is not a run of the model (quick-info cache)")
+            if ds_ == "d_vanished":
+                # hash_db_data raising FileNotFoundError (a cached file vanished) is outside the model (it has a total fingerprint
+                # function and would take the stale branch: one more `remove`); this state is judged by the oracle parts only
+                return ok
             md, ed = replay_in_model(drv, "config", model_state(c, "d", ds_, cls_of_prefix), [queries_to_keys(q) for q in queries], s.trace, s.procs, "d")
             stream.compare({**inp, "cache": "config"}, "ok", md, "observed schedule of the real processes is not a run of the model (config cache)")
             if mq == "ok" and md == "ok":
@@ -1115,6 +1147,7 @@ def _run(ck, work, only=None):
         shutil.rmtree(folder, ignore_errors=True)
         shutil.rmtree(w, ignore_errors=True)
 
+    mark("schedules")
     # ---------------------------------------------------------------- guided replay of unsafe model schedules on the real code
     for kind, f0, qs, a in unsafe[: ck.budget(4, 12)]:
         m = re.match(r"unsafe (.*?) after (.*)$", a)
@@ -1144,6 +1177,19 @@ def _run(ck, work, only=None):
             se.compare((kind, f0, qs), "safe", a, "the model instantiated with the generated guards has an unsafe schedule (not reproduced on the real processes)")
         shutil.rmtree(folder, ignore_errors=True)
         shutil.rmtree(w, ignore_errors=True)
+    if ck.failures or ck.disagreements:
+        check_environment_stable(c)
+
+
+def check_environment_stable(c):
+    """the quick-info fingerprint must still be the one of the reference cache; otherwise the data files changed under us"""
+    from vcore import Infra
+    probe = new_folder(c, "probe")
+    r = run_start(probe, ["families:mbi"])
+    st = after_states(c, [probe]).get(str(probe), {}).get("q")
+    shutil.rmtree(probe, ignore_errors=True)
+    if r["rc"] == 0 and st != "valid":
+        raise Infra("the database fingerprint changed while the check was running (data files were modified concurrently); results are not meaningful - re-run")
 
 
 def replay(ck, data):
